@@ -652,8 +652,13 @@ def _astype(a, dt):
                 out[ix] = sym.to_real(c)
             elif dt.kind in "iu":
                 if c.is_real:
-                    raise EngineUnsupported("astype(int) on symbolic real")
-                out[ix] = sym.to_int_cell(c)
+                    # C truncation toward zero: fork on the sign, then floor / -floor(-x)
+                    if bool(c >= 0):
+                        out[ix] = sym.norm(z3.ToInt(c.e))
+                    else:
+                        out[ix] = sym.norm(-z3.ToInt(-c.e))
+                else:
+                    out[ix] = sym.to_int_cell(c)
             elif dt.kind == "b":
                 out[ix] = sym.sv_truth(c)
             elif dt == _OBJ:
@@ -1718,7 +1723,12 @@ class NumpyProxy:
 
     def empty(self, shape, dtype=float, order="C", **kw):
         if not self.enabled:
-            return numpy.empty(shape, dtype=dtype)
+            r = numpy.empty(shape, dtype=dtype)
+            # concrete replays: poison float buffers so that a cell that is never written is
+            # observable (NaN) instead of whatever the allocator returned
+            if r.dtype.kind == "f":
+                r.fill(numpy.nan)
+            return r
         if self.empty_marks:
             return self._filled(shape, dtype, UNWRITTEN)
         return self._filled(shape, dtype, self._zero(dtype))
